@@ -3,10 +3,9 @@ from __future__ import annotations
 
 import ast
 
-from sa.astx import NotConst, call_attr, call_name, const_eval, dotted, src, walk_local
+from sa.astx import call_attr, call_name, dotted, src, walk_local
 from sa.selftest import Mutant, Silent
-from sa.source import methods
-from sa.props._lib_j import (all_paths, clone, edge_asserts, local_defs, no_exc, node_calls, normal_exits, params, resolve, rsrc)
+from sa.props._lib_j import all_paths, edge_asserts, local_defs, no_exc, node_calls, normal_exits, params, resolve, rsrc
 
 PROPERTY = "C52"
 FP = "python/filepath.py"
@@ -107,7 +106,6 @@ def check(ctx):
     wr = node_calls(g, lambda c: call_attr(c) == "write" and c.args and src(c.args[0]) == params(f)[1])
     ctx.check(len(wr) == 1 and any(isinstance(a, ast.With) and any(it.context_expr is oc for it in a.items) for a in _ancestors(wr[0][1], f)) if wr else False,
               "replace/content-written-once", QS, "the content is not written exactly once into the temporary's handle")
-    tmpname = src(oc.func.value) if isinstance(oc.func, ast.Attribute) else "?"
     _replace_rules(ctx, f, g, QS, opens=(wr[0][0] if wr else on, oc), final_texts={"self.asBytesMode().path", "self.path"},
                    temp_text=f"self.temporarySibling({ext}).path",
                    platform_ok=lambda t: t == "platform.isWindows()", what="setContent")
